@@ -155,6 +155,10 @@ func parseStyle(style string) (isCID bool, size string, customNames bool, err er
 	return
 }
 
+// encBoundary: style "simple-m-enc": a simple font of 257..400 glyphs whose
+// encoding uses 250..256 glyphs (see boundaryEncoding).
+func encBoundary(style string) bool { return strings.HasSuffix(style, "-enc") }
+
 func genFont(seed uint64, style string) (*cff.Font, error) {
 	isCID, size, customNames, err := parseStyle(style)
 	if err != nil {
@@ -167,6 +171,9 @@ func genFont(seed uint64, style string) (*cff.Font, error) {
 		n = vlib.Pick(r, []int{1, 2, 3, r.Range(1, 40)})
 	case "m":
 		n = r.Range(41, 400)
+		if encBoundary(style) {
+			n = r.Range(257, 400)
+		}
 	case "l":
 		n = r.Range(401, 3000)
 	default:
@@ -253,10 +260,28 @@ func genFont(seed uint64, style string) (*cff.Font, error) {
 
 	if !isCID {
 		o.Private = []*type1.PrivateDict{randPrivate(r)}
-		switch r.Intn(4) {
+		encChoice := r.Intn(4)
+		if encBoundary(style) {
+			encChoice = 9
+		}
+		switch encChoice {
 		case 0: // standard encoding by omission
 		case 1:
 			o.Encoding = cff.StandardEncoding(o.Glyphs)
+		case 9:
+			for {
+				k := vlib.Pick(r, []int{250, 254, 255, 255, 256, 256, 256})
+				enc := boundaryEncoding(r, k, vlib.Pick(r, []string{"perm", "short", "short", "pairs", "long"}), r.Bool())
+				names := make([]int32, n)
+				for i := range names {
+					names[i] = int32(i) // any distinct values: only the acceptance matters here
+				}
+				if _, err := cff.VerifC13EncodeEncoding(gidsOf(enc), names); err == nil {
+					o.Encoding = gidsOf(enc)
+					break
+				}
+				// more than 255 ranges cannot be written in CFF: draw again
+			}
 		default:
 			names := make([]int, n)
 			enc, _ := randEncoding(r, n)
@@ -1107,6 +1132,10 @@ func genFonts(run *vlib.Run, r *vlib.Rand, tier string) {
 	n := vlib.Count(tier, 300, 2500)
 	for i := 0; i < n; i++ {
 		one(r.Uint64()>>1, styles[i%len(styles)])
+	}
+	// encodings with 250..256 encoded glyphs on fonts with 257+ glyphs
+	for i := 0; i < vlib.Count(tier, 40, 600); i++ {
+		one(r.Uint64()>>1, "simple-m-enc")
 	}
 	// the largest fonts
 	one(r.Uint64()>>1, "simple-xl")
